@@ -299,6 +299,15 @@ where
 	let mut batch = w.batch(keychain_mask)?;
 
 	let parent_key_id = output.key_id.parent_path();
+	// the wallet's outputs were listed before the (unlocked) walk over the chain:
+	// a scan running at the same time may have restored this one already
+	if batch.get(&output.key_id, &Some(output.mmr_index)).is_ok() {
+		let max_child_index = found_parents.entry(parent_key_id).or_insert(0);
+		if output.n_child > *max_child_index {
+			*max_child_index = output.n_child;
+		}
+		return Ok(());
+	}
 	if !found_parents.contains_key(&parent_key_id) {
 		found_parents.insert(parent_key_id.clone(), 0);
 		if let Some(ref mut s) = tx_stats {
